@@ -161,7 +161,18 @@ func runC20(c *ShardCtx) {
 		}
 		text := peg.Print(g, o)
 		c.Res.Evaluations++
-		bg, berr := bootstrap.NewParser().Parse("", strings.NewReader(text))
+		var bg *ast.Grammar
+		var berr error
+		func() {
+			// (the hand-written front-end runs in this process: a Go panic inside it is an
+			// observation about it, not a failure of the harness)
+			defer func() {
+				if e := recover(); e != nil {
+					berr = fmt.Errorf("Go panic in the bootstrap front-end: %v", e)
+				}
+			}()
+			bg, berr = bootstrap.NewParser().Parse("", strings.NewReader(text))
+		}()
 		if berr != nil {
 			if os.Getenv("C20_DEBUG") != "" {
 				c.Res.Counters["reject:"+names+" :: "+strings.SplitN(berr.Error(), "\n", 2)[0]]++
